@@ -366,8 +366,10 @@ def oracle(setup, init, m, o):
             # 0..k of the snapshots of the other processes (the file is only ever replaced by a complete document)
             n0 = len(setup.init_entries[init] or [])
             k = sum(1 for q in sc.procs if sc.procs[q]["model"] in ("snap", "asnap"))
-            heads = ["No history entries found." if n == 0 else "History (%d of %d entries)" % (min(n, 10), n) for n in range(n0, n0 + k + 1)]
-            if not any(op["out"].startswith(h) for h in heads):
+            # the TOTAL the header names is what the reader loaded; how many of them it prints is a display default
+            mh = re.match(r"History \((\d+) of (\d+) entries\)", op["out"])
+            total = 0 if op["out"].startswith("No history entries found.") else (int(mh.group(2)) if mh else None)
+            if total is None or not (n0 <= total <= n0 + k):
                 bad.append(("reader-lost-entries", "process %d (`%s`) printed `%s` although the history file held %d..%d entries during the whole run"
                             % (pid, " ".join(sc.procs[pid]["args"]), op["out"].strip().splitlines()[0][:60] if op["out"].strip() else op["err"].strip()[-80:], n0, n0 + k)))
     for i, pr in enumerate(o.get("probes", [])):
